@@ -878,6 +878,10 @@ class Engine:
             if isinstance(op, ast.Mult):
                 return [(st, VInt(x * y))]
             if isinstance(op, (ast.FloorDiv, ast.Mod)):
+                ys = z3.simplify(y)
+                if z3.is_int_value(ys) and ys.as_long() > 0:
+                    q, r = floordivmod_const(st, x, ys.as_long())
+                    return [(st, VInt(q if isinstance(op, ast.FloorDiv) else r))]
                 out = []
                 for s, nz in self.split(st, y != 0):
                     if not nz:
@@ -940,8 +944,8 @@ class Engine:
                 return [(st, VBound(v, name))]
             return [(st, VBound(v, name))]
         if isinstance(v, VTd):
-            days, rem = floordivmod(v.us, z3.IntVal(86400 * 10 ** 6))
-            secs, micro = floordivmod(rem, z3.IntVal(10 ** 6))
+            days, rem = floordivmod_const(st, v.us, 86400 * 10 ** 6)
+            secs, micro = floordivmod_const(st, rem, 10 ** 6)
             if name == "days":
                 return [(st, VInt(days))]
             if name == "seconds":
@@ -1485,6 +1489,24 @@ class Engine:
             else:
                 paths.append(Path(s, "undecided", f"signal {sig[0]} escaped"))
         return paths
+
+
+def floordivmod_const(st, x, c: int):
+    """floor division / modulo by a positive constant through fresh quotient and remainder (keeps the VCs linear):
+    x = q*c + r, 0 <= r < c  determines q = x // c and r = x % c uniquely."""
+    key = ("fdm", x.get_id(), c)
+    if key in st.ghost:
+        return st.ghost[key]
+    xs = z3.simplify(x)
+    if z3.is_int_value(xs):
+        v = xs.as_long()
+        res = (z3.IntVal(v // c), z3.IntVal(v % c))
+    else:
+        q, r = fresh("q", I), fresh("r", I)
+        st.assume(x == q * c + r, r >= 0, r < c)
+        res = (q, r)
+    st.ghost[key] = res
+    return res
 
 
 def floordivmod(x, y):
